@@ -694,3 +694,91 @@ Proof.
     + destruct (build_gwf ds) as [_ Hn]. rewrite <- (Hn nd d N1 N2). exact D2.
     + exists b. split; [exact Hb|]. rewrite (build_edges ds nd N1). apply sort_unique_In. apply in_flat_map. exists d. auto.
 Qed.
+
+(* ---------- the result does not depend on the order in which the declarations arrive ---------- *)
+Lemma sorted_ext {A} (f : A -> str) (l l' : list A) :
+  StronglySorted str_lt (map f l) -> StronglySorted str_lt (map f l') ->
+  (forall x, In x l <-> In x l') -> l = l'.
+Proof.
+  revert l'. induction l as [|a l IH]; intros l' H1 H2 Hiff.
+  - destruct l' as [|b l']; [reflexivity|]. destruct (proj2 (Hiff b) (or_introl eq_refl)).
+  - destruct l' as [|b l']; [destruct (proj1 (Hiff a) (or_introl eq_refl))|].
+    simpl in H1, H2. inversion H1 as [|? ? S1 F1]; inversion H2 as [|? ? S2 F2]; subst.
+    rewrite Forall_forall in F1, F2.
+    assert (a = b).
+    { destruct (proj1 (Hiff a) (or_introl eq_refl)) as [E|Ha]; [auto|].
+      destruct (proj2 (Hiff b) (or_introl eq_refl)) as [E|Hb]; [auto|].
+      exfalso. apply (str_lt_irrefl (f a)). eapply str_lt_trans; [apply F1, in_map, Hb|apply F2, in_map, Ha]. }
+    subst b. f_equal. apply IH; auto. intros x. split; intros Hx.
+    + destruct (proj1 (Hiff x) (or_intror Hx)) as [E|Hx']; [|exact Hx']. subst x.
+      exfalso. apply (str_lt_irrefl (f a)). apply F1, in_map, Hx.
+    + destruct (proj2 (Hiff x) (or_intror Hx)) as [E|Hx']; [|exact Hx']. subst x.
+      exfalso. apply (str_lt_irrefl (f a)). apply F2, in_map, Hx.
+Qed.
+
+Definition single (d : decl) : gnode := mkNode (dname d) [d] [].
+
+Lemma g_add_fresh g d nd : ~ In (dname d) (gnames g) -> (In nd (g_add g d) <-> nd = single d \/ In nd g).
+Proof.
+  induction g as [|x g IH]; simpl; intros Hn.
+  - unfold single. intuition.
+  - destruct (str_cmp (dname d) (gname x)) eqn:E.
+    + apply str_cmp_eq in E. exfalso. apply Hn. left. auto.
+    + simpl. unfold single. intuition.
+    + simpl. rewrite IH by tauto. intuition.
+Qed.
+
+Lemma decl_map_nodes_gen l : forall g, NoDup (names_of l) -> (forall x, In x (names_of l) -> ~ In x (gnames g)) ->
+  forall nd, In nd (fold_left g_add l g) <-> (exists d, In d l /\ nd = single d) \/ In nd g.
+Proof.
+  induction l as [|d l IH]; simpl; intros g Hnd Hdis nd.
+  - split; [auto|intros [[d [[] _]]|H]; exact H].
+  - inversion Hnd as [|? ? Hx Hrest]; subst.
+    assert (Hfresh : ~ In (dname d) (gnames g)) by (apply Hdis; left; reflexivity).
+    rewrite IH.
+    + rewrite g_add_fresh by exact Hfresh. split.
+      * intros [[e [H1 H2]]|[H|H]]; [left; exists e; auto|left; exists d; auto|right; exact H].
+      * intros [[e [[<-|H1] H2]]|H]; [right; left; exact H2|left; exists e; auto|right; right; exact H].
+    + exact Hrest.
+    + intros x Hx' Hin. apply g_add_names in Hin as [->|Hin]; [exact (Hx Hx')|]. exact (Hdis x (or_intror Hx') Hin).
+Qed.
+
+Lemma decl_map_perm_eq l l' : NoDup (names_of l) -> Permutation l l' -> decl_map l = decl_map l'.
+Proof.
+  intros Hnd HP.
+  assert (Hnd' : NoDup (names_of l')) by (eapply Permutation_NoDup; [apply Permutation_map; exact HP|exact Hnd]).
+  unfold decl_map.
+  destruct (decl_map_props_gen l []) as [A _]; [constructor|intros ? ? []|].
+  destruct (decl_map_props_gen l' []) as [A' _]; [constructor|intros ? ? []|].
+  apply (sorted_ext gname); [exact A|exact A'|].
+  intros nd. rewrite !decl_map_nodes_gen by (auto; intros ? ? []).
+  split; intros [[d [H1 H2]]|[]]; left; exists d; split; auto.
+  - eapply Permutation_in; eauto.
+  - eapply Permutation_in; [apply Permutation_sym|]; eauto.
+Qed.
+
+Lemma str_in_perm n l l' : Permutation l l' -> str_in n l = str_in n l'.
+Proof.
+  intros HP. destruct (str_in n l) eqn:E; symmetry.
+  - apply str_in_In. apply str_in_In in E. eapply Permutation_in; eauto.
+  - destruct (str_in n l') eqn:E'; [|reflexivity]. apply str_in_In in E'.
+    apply (Permutation_in _ (Permutation_sym HP)) in E'. apply str_in_In in E'. congruence.
+Qed.
+
+Lemma resolve_perm ds ds' : Permutation ds ds' -> Permutation (resolve ds) (resolve ds').
+Proof.
+  intros HP. unfold resolve.
+  rewrite (map_ext _ (fun d => set_deps d (filter (fun n => str_in n (names_of ds')) (ddeps d)))).
+  - apply Permutation_map. exact HP.
+  - intros d. f_equal. apply filter_ext. intros n. apply str_in_perm. apply Permutation_map. exact HP.
+Qed.
+
+Lemma resolve_names ds : names_of (resolve ds) = names_of ds.
+Proof. unfold names_of, resolve. rewrite map_map. reflexivity. Qed.
+
+Lemma deterministic ds ds' : NoDup (names_of ds) -> Permutation ds ds' -> sort ds = sort ds'.
+Proof.
+  intros Hnd HP. unfold sort, build. f_equal. f_equal. apply decl_map_perm_eq.
+  - rewrite resolve_names. exact Hnd.
+  - apply resolve_perm. exact HP.
+Qed.
